@@ -6,8 +6,13 @@ import hv
 from hv import Case
 
 SPEC = {
-    "lean_modules": ["Honeycomb.Props.C01", "Honeycomb.Props.C01b"],
-    "required_theorems": ["C01_history_preserves_WF", "C01_step_preserves_WF", "C01_failed_call_changes_nothing", "C01_unused_is_nobodys_image",
+    "lean_modules": ["Honeycomb.Props.C01", "Honeycomb.Props.C01b", "Honeycomb.Props.C01Gen"],
+    # Gen/LinkCores.lean is re-translated from components/betas.rs before every build
+    "gen": ["cores"],
+    "required_theorems": [
+        # Props/C01Gen.lean: the translated *_core functions of betas.rs ARE the model's link cores (program equality)
+        "C01_gen_oneLinkCore", "C01_gen_twoLinkCore", "C01_gen_threeLinkCore", "C01_gen_oneUnlinkCore", "C01_gen_twoUnlinkCore",
+        "C01_gen_threeUnlinkCore","C01_history_preserves_WF", "C01_step_preserves_WF", "C01_failed_call_changes_nothing", "C01_unused_is_nobodys_image",
                           "C01_any_outcome_preserves_WF", "C01_swallowed_abort_preserves_WF"],
     "trusted_base": [
         "Lean 4.33 kernel; axioms propext, Classical.choice, Quot.sound only",
